@@ -48,6 +48,10 @@ CHECKS = {
    text="reference-model monitor: vp/model/builtins.py (written from the sass-lang.com documentation) predicts the structural result or the argument-error status of every call of the list, map and string built-ins with generated arguments (lists of length 0-6 x separators x brackets, indices in [-8,8] and non-integers, nested maps and key paths, strings with combining/astral/ZWJ code points, wrongly typed and surplus/missing arguments); results are compared as value structures delivered by the probe (not text), and every sass:list/map/string function is compared with its global alias on the same arguments",
    note="error status only (not wording); separators of lists with fewer than two elements are not compared; equality of the empty list and the empty map is not imposed",
    technique="runtime monitoring: reference-model oracle over probe-observed value structures + alias differential"),
+ "C03": dict(engine="vw+vp",
+   text="reference-interpreter monitor: vp/model/sassscript.py (written from the specification's evaluation rules: frame stack with semi-global scopes, one scope per loop, closures sharing frames by reference, argument binding with defaults evaluated in the callee, @content in the caller's closure, @return unwinding loops, operators with short-circuit) predicts for every generated well-typed terminating program the ordered list of emitted declarations, the ordered Logger messages and the error status (incl. the inspected @error value); grass's output is read back with the independent CSS reader; every program is run as SCSS and as indented syntax in a sampled output style",
+   note="programs outside the model are inconclusive; identical repeated warnings from one location are collapsed on both sides; serializer-time errors are deferred in the model as in the reference implementation",
+   technique="runtime monitoring: reference-model (independent interpreter) oracle over recorded outputs and Logger traces of generated programs"),
 }
 
 ALL = ["C%02d" % i for i in range(1, 21)]
